@@ -1071,6 +1071,87 @@ func hdrCases(r *hx.Rand) {
 	khNum = nil
 }
 
+// ---------------------------------------------------------------- hand-made tables: many warnings
+
+// handCases: benchtab.Table values assembled by hand (real Keys, made-up cells) so that a table
+// carries up to 14 DISTINCT warning messages: footnote numbers with two digits, cells with
+// several footnotes, warnings on comparisons and summaries.
+func handCases(r *hx.Rand) {
+	n := hx.N(120, 2500)
+	for i := 0; i < n; i++ {
+		func() {
+			defer func() {
+				if e := recover(); e != nil {
+					hx.Printf("crash %d hand table: %v\n", id, e)
+					id++
+				}
+			}()
+			ncols, nrows := 1+r.Intn(3), 1+r.Intn(4)
+			nmsg := 1 + r.Intn(14)
+			if i%3 == 0 {
+				nmsg = 10 + r.Intn(5)
+			}
+			warn := func(max int) []error {
+				var out []error
+				for k := r.Intn(max + 1); k > 0; k-- {
+					out = append(out, fmt.Errorf("made-up warning number %d", 1+r.Intn(nmsg)))
+				}
+				return out
+			}
+			var cp, rp benchproc.ProjectionParser
+			colProj, err := cp.Parse("f0", nil)
+			if err != nil {
+				panic(err)
+			}
+			rowProj, err := rp.Parse(".fullname", nil)
+			if err != nil {
+				panic(err)
+			}
+			var cols, rows []benchproc.Key
+			for c := 0; c < ncols; c++ {
+				res := &benchfmt.Result{Name: benchfmt.Name("X")}
+				res.SetConfig("f0", []string{"base", "exp", "third"}[c])
+				cols = append(cols, colProj.Project(res))
+			}
+			for k := 0; k < nrows; k++ {
+				res := &benchfmt.Result{Name: benchfmt.Name([]string{"A", "Bb", "C/x=1", "Dddd"}[k])}
+				rows = append(rows, rowProj.Project(res))
+			}
+			t := &benchtab.Table{Unit: hx.Pick(r, []string{"sec/op", "B/op"}), Cols: cols, Rows: rows,
+				Cells: map[benchtab.TableKey]*benchtab.TableCell{}, Summary: map[benchproc.Key]*benchtab.TableSummary{}, SummaryLabel: "geomean"}
+			for _, row := range rows {
+				var base *benchtab.TableCell
+				for c, col := range cols {
+					if r.Chance(1, 6) {
+						continue
+					}
+					v := []float64{1.5e-6, 3.25e-3, 42, 1.1e6}[r.Intn(4)] * (1 + r.Float())
+					cell := &benchtab.TableCell{
+						Sample:  &benchmath.Sample{Values: []float64{v}, Warnings: warn(2)},
+						Summary: benchmath.Summary{Center: v, Lo: v * 0.97, Hi: v * 1.02, Confidence: 0.95, Warnings: warn(2)},
+					}
+					if c == 0 {
+						base = cell
+					} else if base != nil {
+						cell.Baseline = base
+						cell.Comparison = benchmath.Comparison{P: r.Float(), N1: 5, N2: 6, Alpha: 0.05, Warnings: warn(2)}
+					}
+					t.Cells[benchtab.TableKey{Row: row, Col: col}] = cell
+				}
+			}
+			for c, col := range cols {
+				t.Summary[col] = &benchtab.TableSummary{HasSummary: r.Chance(5, 6), Summary: 1e-3 * (1 + r.Float()),
+					HasRatio: c > 0 && r.Chance(3, 4), Ratio: 0.5 + r.Float(), Warnings: warn(2)}
+			}
+			tag := "hand"
+			if nmsg >= 10 {
+				tag += "+manywarn"
+			}
+			runTable(t, tag)
+		}()
+	}
+}
+
 func main() {
 	defer hx.Flush()
 	r := hx.NewRand(16)
@@ -1078,4 +1159,5 @@ func main() {
 	khCases(hx.NewRand(1016))
 	e2eCases(hx.NewRand(2016))
 	hdrCases(hx.NewRand(3016))
+	handCases(hx.NewRand(4016))
 }
